@@ -16,7 +16,7 @@ CFG = {
     "components": [{"component": "close", "session_start": "new", "timeout_quick": 120, "timeout_thorough": 900, "shrink_s": 40,
                     "trivial_regex": r"^(skip|error|bad-op.*)$"},
                    {"component": "atcclose", "timeout_quick": 60, "timeout_thorough": 300, "trivial_regex": r"^(skip|bad-op.*)$"}],
-    "rule": "quick: 10 + 8 hand-written boundary sessions + 8 generated base sequences x every 3rd injection position x 6 closing variants "
+    "rule": "component atcclose: a real loopback activeTCPConn with a reader parked like the candidate's receive loop, Close in the states alive / peer reset + failed local write / failed dial / before the dial completed must release it; quick: 10 + 8 hand-written boundary sessions + 8 generated base sequences x every 3rd injection position x 6 closing variants "
             "(API goroutine, graceful, from a handler, concurrent, repeated, handler+API); thorough: 150 base sequences x EVERY position. "
             "ICE-TCP: a REAL TCPMuxDefault (fake listener, ReadBufferSize 1..2), passive TCP host candidate, a client that sends more "
             "framed packets than the queue holds while the agent is not started / its loop is stuck, Close at every 2nd (thorough: every) "
